@@ -104,6 +104,45 @@ int main(int argc, char **argv)
       os << G.pmf->nt;
       for (size_t i = 0; i < G.pmf->nt; i++) { os << " "; hexout(os, G.pmf->data[i]); }
       os << "\n";
+    } else if (cmd == "TI1D") {
+      // TI1D per has_samples min full n w data(n) counts(n): colvar_grid_gradient::write_1D_integral (the .ti.pmf
+      // writer) on grids constructed from a real colvar (distanceZ, optionally periodic with period n*w)
+      int per = ni(), hs = ni(), mins = ni(), fulls = ni(), n = ni();
+      double w = nf();
+      std::ostringstream cfg; cfg.precision(17);
+      cfg << "colvar {\n name z\n width " << w << "\n lowerBoundary 0\n upperBoundary " << n * w
+          << "\n distanceZ {\n main {\n atomNumbers 1\n }\n ref {\n dummyAtom (0.0, 0.0, 0.0)\n }\n axis (0.0, 0.0, 1.0)\n";
+      if (per) cfg << " period " << n * w << "\n";
+      cfg << " }\n}\n";
+      cvm::main()->read_config_string(cfg.str());
+      std::vector<colvar *> cvs = *(cvm::main()->variables());
+      if (cvs.size() != 1 || cvm::get_error()) { os << "ERR colvar " << proxy->errtext.substr(0, 200) << "\n"; }
+      else {
+        std::shared_ptr<colvar_grid_count> cnt;
+        if (hs) cnt.reset(new colvar_grid_count(cvs));
+        std::shared_ptr<colvar_grid_gradient> g(new colvar_grid_gradient(cvs, cnt));
+        g->min_samples = mins; g->full_samples = fulls;
+        if ((int) g->nx[0] != n || (bool) g->periodic[0] != (per != 0)) {
+          os << "ERR grid nx=" << g->nx[0] << " periodic=" << g->periodic[0] << "\n";
+        } else {
+          for (int i = 0; i < n; i++) g->data[i] = nf();
+          for (int i = 0; i < n; i++) { int c = ni(); if (hs) cnt->data[i] = (size_t) c; }
+          std::ostringstream txt;
+          g->write_1D_integral(txt);
+          std::istringstream rd(txt.str());
+          std::string l; std::vector<double> xi, av;
+          while (std::getline(rd, l)) {
+            if (l.empty() || l[0] == '#') continue;
+            std::istringstream ls(l); double a, b; if (ls >> a >> b) { xi.push_back(a); av.push_back(b); }
+          }
+          os << av.size();
+          for (size_t i = 0; i < av.size(); i++) { os << " "; hexout(os, av[i]); }
+          os << " |";
+          for (size_t i = 0; i < xi.size(); i++) { os << " "; hexout(os, xi[i]); }
+          os << "\n";
+        }
+      }
+      cvm::main()->reset();
     } else if (cmd == "DIV" || cmd == "SOLVE") {
       // DIV nd per(nd) nxg(nd) w(nd) has_samples smoothed min full npre nev (bin(nd) force(nd))*(npre+nev)
       // the first npre arrivals are accumulated without divergence update and followed by set_div
@@ -153,11 +192,21 @@ int main(int argc, char **argv)
       for (int i = 0; i < nd; i++) w[i] = nf();
       grids G;
       make(G, nd, per, nxg, w, false, false, 0, 1);
-      std::vector<double> A(G.pmf->nt), LA(G.pmf->nt, 0.0);
-      for (size_t i = 0; i < G.pmf->nt; i++) A[i] = nf();
+      // the vectors carry PAD sentinel entries after the nt grid values: atimes must neither write them
+      // nor depend on them (it indexes the arrays by hand)
+      const size_t nt = G.pmf->nt, PAD = 4 * nt + 64;
+      std::vector<double> A(nt + PAD, 1.0e3), LA(nt + PAD, -7.25), A2, LA2(nt + PAD, -7.25);
+      for (size_t i = 0; i < nt; i++) A[i] = nf();
+      A2 = A; for (size_t i = nt; i < nt + PAD; i++) A2[i] = -3.0e5;
       G.pmf->atimes(A, LA);
-      os << G.pmf->nt;
-      for (size_t i = 0; i < LA.size(); i++) { os << " "; hexout(os, LA[i]); }
+      G.pmf->atimes(A2, LA2);
+      bool wrote = false, readpad = false;
+      for (size_t i = nt; i < nt + PAD; i++) if (LA[i] != -7.25) wrote = true;
+      for (size_t i = 0; i < nt; i++) if (LA[i] != LA2[i] && !(LA[i] != LA[i] && LA2[i] != LA2[i])) readpad = true;
+      os << nt;
+      for (size_t i = 0; i < nt; i++) { os << " "; hexout(os, LA[i]); }
+      if (wrote) os << " | WROTE-OUTSIDE";
+      if (readpad) os << " | READ-OUTSIDE";
       os << "\n";
     } else {
       os << "?\n";
